@@ -107,9 +107,9 @@ STREAMS = {
             ("earlydt", 8, 60), ("finishing", 4, 40), ("blackout", 6, 60), ("starve", 6, 40), ("sudden", 4, 40), ("fastrebuild", 5, 40), ("large", 2, 12)],
     "C01": [("eventfree", 40, 400)],
     "C08": [("rebuild", 26, 300), ("multi", 10, 100), ("earlydt", 8, 80), ("finishing", 6, 60), ("fastrebuild", 4, 40), ("large", 2, 12)],
-    "C13": [("units", 24, 200)],
+    "C13": [("units", 22, 200), ("finishing", 6, 60)],
     "C18": [("shocked", 12, 120), ("shortage", 6, 60), ("eventfree", 6, 60)],
-    "C03": [("shortage", 18, 300), ("shocked", 12, 200), ("multi", 8, 80), ("finishing", 8, 80), ("large", 2, 12)],
+    "C03": [("shortage", 16, 300), ("shocked", 10, 200), ("multi", 6, 80), ("finishing", 8, 80), ("starve", 6, 40), ("large", 2, 12)],
     "C04": [("shocked", 20, 300), ("shortage", 12, 200), ("multi", 8, 100), ("rebuild", 6, 80), ("finishing", 8, 80), ("large", 2, 12)],
     "C05": [("shocked", 10, 200), ("shortage", 8, 150), ("crash", 8, 150), ("starve", 8, 60), ("mild", 6, 100), ("sudden", 8, 80), ("large", 2, 12)],
     "C06": [("shocked", 16, 300), ("shortage", 12, 200), ("mild", 14, 200), ("blackout", 4, 40), ("large", 2, 12)],
